@@ -18,6 +18,17 @@ CHECKS = {
              'complete parsed contents (every container, every field, order) are compared with a reference derived from '
              'the generating model; exploration, not proof - strength is the number and diversity of documents.',
         note=TRUST_PY, design='C05'),
+    'C17': dict(
+        technique=PBT + 'an independent reference flattener/line splitter and the algebraic laws of the statement',
+        text='Generated-input search over nested content (all accepted types, every Python line boundary); each law of '
+             'the statement (flattening, no break inside a line, string form, round trip, append/+/+= as concatenation, '
+             'trim, chunk, cond_chunk) is an executable oracle; exploration.',
+        note=TRUST_PY, design='C17'),
+    'C18': dict(
+        technique=PBT + 'a direct per-line prefix specification of the indenter; list form vs string form differential',
+        text='Generated-input search over line lists x indenter configurations x repetition, compared line by line with '
+             'a specification of the prefix; exploration.',
+        note=TRUST_PY, design='C18'),
 }
 
 NOT_YET = {
